@@ -69,8 +69,9 @@ def main():
             elif job['cmd'] == 'gen':
                 res['trace'] = mod.generate(job['seed'], job['tier'])
             elif job['cmd'] == 'canary':
-                res.update(mod.run_canary(job['name'], job['seeds'],
-                                          job['tier']))
+                from dst.canary import run_canary
+                res.update(run_canary(prop, job['name'], job['seeds'],
+                                      job['tier']))
             elif job['cmd'] == 'extra':
                 res.update(getattr(mod, job['fn'])(*job.get('args', [])))
             else:
